@@ -753,6 +753,9 @@ def repeated_start_issues(kinds=('PSO', 'HC', 'ABC', 'SA')):
     return issues
 
 
+from runlevel import fnum
+
+
 def plain_gp_issues(seeds=range(8)):
     """GP tasks run *without any tap* (the recorder itself evaluates trees, which would trigger — and thereby hide — an
     evaluation that has side effects on shared terminal arrays): at return and in the returned records every agent's position is
@@ -778,6 +781,7 @@ def plain_gp_issues(seeds=range(8)):
                 v[j] = np.clip(v[j], lb[j], ub[j])
             return v
         rp = dict(how='plain-gp', seed=int(sd))
+        sp = None
         np.random.seed(1000 + sd)
         try:
             sp = L['TreeSpace'](n_trees=10, n_terminals=2, n_variables=nv, n_iterations=1 + sd % 5, min_depth=1, max_depth=3,
@@ -785,6 +789,17 @@ def plain_gp_issues(seeds=range(8)):
             gp = L['kinds']['GP'](hyperparams={'p_reproduction': 0.3, 'p_mutation': 0.3, 'p_crossover': 0.3, 'prunning_ratio': 0.0})
             h = L['Opytimizer'](space=sp, optimizer=gp, function=L['Function'](pointer=objective)).start()
         except Exception as ex:
+            import traceback as _tb
+            frames_ = [fr.name for fr in _tb.extract_tb(ex.__traceback__)]
+            nan_fit = False
+            try:
+                nan_fit = any(fnum(a_.fit) != fnum(a_.fit) for a_ in sp.agents)
+            except Exception:
+                pass
+            if isinstance(ex, IndexError) and 'tournament_selection' in frames_ and nan_fit:
+                # the recorded finding K4 (a NaN fitness - inf - inf in an overflowing tree - leaves the tournament without a
+                # winner): outside what C12 claims (finite tree values); K4's own witness is replayed by the C01 / C03 checks
+                continue
             issues.append(dict(what='plain-gp-raised', layer='oracle', cfg_kind='GP', error=repr(ex)[:120], replay=rp))
             continue
         bad = None
